@@ -7,4 +7,6 @@ Titles == { [id |-> "T", len |-> 1], [id |-> "Title", len |-> 5], [id |-> "Ünï
 Items == { <<"i">>, <<"i", "j">> }
 AllOps == {"text", "field", "blist", "elist", "directive", "option", "set_title", "clear", "to_text"}
 NoTitleOps == AllOps \ {"set_title", "elist"}
+\* growth beyond C20: section() and doctest() (conformance only)
+GrowthOps == {"text", "directive", "doctest", "section", "field", "to_text"}
 =============================================================================
